@@ -358,7 +358,7 @@ func cmdRR(args []string) error {
 		return err
 	}
 	defer w.Close()
-	ks := []int{1, 2, 7}
+	ks := []int{1, 2, 7, 64}
 	maxN := 7
 	if cli.Thorough() {
 		ks = []int{1, 2, 3, 7, 50, 400}
